@@ -764,6 +764,45 @@ pub enum Verdict {
     Invalid(String),
 }
 
+/// The readings of a text whose comments contain carriage returns that are not part of a CRLF
+/// pair: each such CR either belongs to the comment or ends its line (zlink reads it one way in
+/// documented positions and the other way inside white space). First the text as it is, then the
+/// variants in which some of those CRs are replaced by line feeds (all subsets up to 6 of them).
+pub fn lone_cr_readings(text: &str) -> Vec<String> {
+    let b = text.as_bytes();
+    let mut cands = Vec::new();
+    let mut in_comment = false;
+    for i in 0..b.len() {
+        match b[i] {
+            b'#' => in_comment = true,
+            b'\n' => in_comment = false,
+            b'\r' if in_comment && b.get(i + 1) != Some(&b'\n') => cands.push(i),
+            _ => {}
+        }
+    }
+    let mut out = vec![text.to_string()];
+    if cands.is_empty() {
+        return out;
+    }
+    let masks: Vec<u64> = if cands.len() <= 6 {
+        (1..(1u64 << cands.len())).collect()
+    } else {
+        let mut m: Vec<u64> = vec![u64::MAX];
+        m.extend((0..cands.len().min(60)).map(|k| 1u64 << k));
+        m
+    };
+    for mask in masks {
+        let mut v = b.to_vec();
+        for (k, &i) in cands.iter().enumerate() {
+            if k < 64 && mask & (1 << k) != 0 {
+                v[i] = b'\n';
+            }
+        }
+        out.push(String::from_utf8(v).unwrap_or_default());
+    }
+    out
+}
+
 pub fn recognise(text: &str) -> Verdict {
     // White space other than space / tab / CR / LF at the very ends of the text (form feed, vertical
     // tab, NEL, ...) is tolerated by zlink's trimming; whether that is right is not judged.
@@ -783,18 +822,8 @@ pub fn recognise(text: &str) -> Verdict {
                 // (zlink's reading, and that of grammars that list CR among the line ends) or is part
                 // of the comment's text is not judged. If the text is acceptable under the reading
                 // "a lone CR is a line break", rejection is not demanded.
-                let b = text.as_bytes();
-                let lone_cr = (0..b.len()).any(|i| b[i] == b'\r' && b.get(i + 1) != Some(&b'\n'));
-                if lone_cr && text.contains('#') {
-                    let mut alt = String::with_capacity(text.len());
-                    for (i, c) in text.char_indices() {
-                        if c == '\r' && b.get(i + 1) != Some(&b'\n') {
-                            alt.push('\n');
-                        } else {
-                            alt.push(c);
-                        }
-                    }
-                    if P::new(&alt, false).interface().is_ok() {
+                for alt in lone_cr_readings(text).iter().skip(1) {
+                    if P::new(alt, false).interface().is_ok() {
                         return Verdict::Unsure;
                     }
                 }
